@@ -14,7 +14,7 @@ REQUIRED = ['getNBest_shape', 'plurality_shape', 'quotaSelector_refusals', 'ha_s
             'lr_shape', 'qd_shape', 'quota_pos', 'lr_rounded_quota_zero_witness',
             'getNBest_struct', 'breakSecondOrder_shape', 'copeland_shape', 'schulze_shape', 'minimax_shape',
             'positional_shape', 'positional_refusals', 'scorerOK_of_wf', 'approval_shape', 'approval_refusals',
-            'quotaSelector_shape', 'abs_threshold_shape', 'rel_threshold_shape', 'openlist_shape',
+            'quotaSelector_shape', 'ha_refusals', 'list_tiebreaker_shape', 'alternative_threshold_shape', 'abs_threshold_shape', 'rel_threshold_shape', 'openlist_shape',
             # Lemmas/ShapeRankedT2.lean
             'kemeny_shape', 'kemeny_refusals', 'rankedpairs_shape_partial', 'rankedpairs_shape_le_two', 'rankedpairs_refusals',
             'rankedpairs_refusals_all', 'rankedpairs_short_witness', 'seatless_shape', 'seatless_smith_nonempty', 'benham_shape',
@@ -36,7 +36,8 @@ PROVED_FAMILIES = ['plurality', 'ha_d_hondt', 'ha_sainte_lague', 'ha_imperiali',
                    'positional_fixed_top3', 'approval_av', 'approval_sav',
                    'condorcet_kemeny_young', 'condorcet_winner', 'smith_set', 'schwartz_set',
                    'stv_gregory_hare', 'stv_gregory_droop', 'stv_dist_gregory_droop',
-                   'rel_threshold_5pc', 'rel_threshold_third', 'abs_threshold_2', 'openlist_jump_5pc', 'openlist_quota_precedence']
+                   'rel_threshold_5pc', 'rel_threshold_third', 'abs_threshold_2', 'openlist_jump_5pc', 'openlist_quota_precedence',
+                   'openlist_tiebreaker_plurality', 'threshold_alternative']
 NAMES = Names(prefix='cand')
 POSITIONAL = {'positional_borda': {'s': 'Borda', 'base': 1}, 'positional_borda0': {'s': 'Borda', 'base': 0},
               'positional_dowdall': {'s': 'Dowdall'}, 'positional_geometric': {'s': 'Geometric', 'base': 2},
@@ -132,6 +133,22 @@ def covered_classes():
 
 
 # families with a Lean theorem that is only part of the schema: the missing statement (they stay listed as unproved)
+# abstract base classes / typing protocols without an evaluation of their own
+ABSTRACT = {'core.Evaluator', 'core.Selector', 'core.SeatlessSelector', 'core.Distributor', 'core.SeatlessDistributor',
+            'core.OpenListEvaluator', 'core.UnknownEvaluator', 'condorcet.Selector', 'condorcet.SeatlessSelector'}
+# public classes the C08 family tables do not reach, with the property whose check exercises them
+NOT_REACHED = {
+    **{'core.' + c: 'composition wrapper: result shape is that of the wrapped evaluator, wrapper algebra is C14'
+       for c in ('AdjustedSeatCount', 'ByConstituency', 'ByParty', 'Conditioned', 'FixedSeatCount', 'MultistageDistributor',
+                 'PostConverted', 'PreApportioned', 'RemovedApportionment', 'TieBreaking', 'PartyListEvaluator')},
+    'core.UnusedVotesDistributor': 'nested district votes: C18',
+    'proportional.BiproportionalEvaluator': 'nested district votes: C07',
+    'proportional.PureProportionality': 'returns fractional seats by design (documented as auxiliary)',
+    'proportional.VotesPerSeat': 'seat-less distributor (no n_seats)',
+    'threshold.CoalitionMemberBracketer': 'needs candidate objects with properties: C16',
+    'threshold.PropertyBracketer': 'needs candidate objects with properties: C16',
+    'threshold.PreviousGainThreshold': 'needs previous gains: C16',
+}
 PARTIAL_FAMILIES = {
     **{f'condorcet_rankedpairs_{k}': 'rankedpairs_shape (exactly n places for n >= 3) is FALSE of the code: rankedpairs_short_witness, open '
        'finding; proved: rankedpairs_shape_partial (everything but the length, never shorter than 2), rankedpairs_shape_le_two, rankedpairs_refusals'
@@ -150,9 +167,10 @@ UNMODELLED = []
 def _bookkeeping():
     global UNPROVED, UNMODELLED
     try:
-        UNPROVED = [PARTIAL_FAMILIES[n] for n in fams() if n in PARTIAL_FAMILIES] + \
+        UNPROVED = [f'{n}: {PARTIAL_FAMILIES[n]}' for n in fams() if n in PARTIAL_FAMILIES] + \
                    ['shape_' + n for n in fams() if n not in PROVED_FAMILIES and n not in PARTIAL_FAMILIES]
-        UNMODELLED = [c for c in public_classes() if c not in covered_classes()]
+        UNMODELLED = [c + (f' ({NOT_REACHED[c]})' if c in NOT_REACHED else '') for c in public_classes()
+                      if c not in covered_classes() and c not in ABSTRACT]
     except Exception:
         pass
 _bookkeeping()
@@ -189,6 +207,7 @@ def generate(rng, tier):
         yield {'op': 'shape', 'family': fam, 'prof': [[i, str(k)] for i in range(m)], 'n': rng.randint(1, m - 1),
                '_tags': ['dist', 'all_equal']}
     if tier == 'thorough':
+        yield from small_scope(F)
         # every n for a fixed profile
         for f in F:
             for t in range(10):
@@ -197,6 +216,30 @@ def generate(rng, tier):
                 cands = fam_mod.present_candidates(f, prof)
                 for n in range(1, len(cands) + 1):
                     yield {'op': 'shape', 'family': f.name, 'prof': prof, 'n': n, '_tags': [f.kind, 'all_n']}
+
+
+def small_scope(F):
+    """small-scope exhaustive enumeration (thorough tier): every simple profile over <= 3 parties with counts 0..3 (and 4 parties with
+    counts 0..2), every ranked profile of one or two distinct strict ballots over 3 candidates with weights 1..2, every approval profile
+    of one or two distinct ballots over 3 candidates - x every family of that vote type x every admissible n"""
+    import itertools
+    simple = []
+    for m, top in ((1, 3), (2, 3), (3, 3), (4, 2)):
+        for vals in itertools.product(range(top + 1), repeat=m):
+            if sum(vals) > 0:
+                simple.append([[i, str(v)] for i, v in enumerate(vals)])
+    ballots = [list(p) for k in (1, 2, 3) for p in itertools.permutations(range(3), k)]
+    ranked = [[[b, str(w)]] for b in ballots for w in (1, 2)]
+    ranked += [[[a, str(wa)], [b, str(wb)]] for a, b in itertools.combinations(ballots, 2) for wa in (1, 2) for wb in (1, 2)]
+    sets = [list(c) for k in (1, 2, 3) for c in itertools.combinations(range(3), k)]
+    approval = [[[b, str(w)]] for b in sets for w in (1, 2)]
+    approval += [[[a, str(wa)], [b, str(wb)]] for a, b in itertools.combinations(sets, 2) for wa in (1, 2) for wb in (1, 2)]
+    by_type = {'simple': simple, 'ranked': ranked, 'ranked_noshared': ranked, 'approval': approval}
+    for f in F:
+        for prof in by_type.get(f.vtype, []):
+            cands = fam_mod.present_candidates(f, prof)
+            for n in (range(1, len(cands) + 1) if f.n_seats else [1]):
+                yield {'op': 'shape', 'family': f.name, 'prof': prof, 'n': n, '_tags': [f.kind, 'small_scope']}
 
 
 def impl(case):
@@ -300,6 +343,9 @@ def model_line(case):
     if f in THRESHOLDS:
         op, t, eq = THRESHOLDS[f]
         return {'op': op, 'votes': case['prof'], 'threshold': t, 'accept_equal': eq}
+    if f == 'threshold_alternative':
+        return {'op': 'seatless', 'votes': case['prof'], 'prev': None, 'members': [], 'props': [],
+                'sel': {'k': 'alt', 'parts': [{'k': 'abs', 't': '2', 'eq': True}, {'k': 'rel', 't': '1/5', 'eq': True}]}}
     if f in ('condorcet_winner', 'smith_set', 'schwartz_set'):
         import votelib.convert as cv
         pw = cv.RankedToCondorcetVotes().convert(fam_mod.build('ranked', case['prof'], NAMES))
@@ -339,7 +385,10 @@ def compare(case, iobs, mobs):
     if case['family'].startswith('condorcet_'):
         import props.C05 as P05
         return P05.compare({'op': 'eval', 'name': case['family'][len('condorcet_'):]}, iobs, mobs)
-    if case['family'] in ('condorcet_winner', 'smith_set', 'schwartz_set'):
+    if case['family'] == 'threshold_alternative':
+        # candidates of equal mean rank come in the iteration order of a Python set
+        a, b = (iobs if isinstance(iobs, dict) else sorted(iobs)), (mobs if isinstance(mobs, dict) else sorted(mobs))
+    elif case['family'] in ('condorcet_winner', 'smith_set', 'schwartz_set'):
         # the order inside the set follows the Copeland ordering, ties in dict order: compare as the code returns it
         a, b = canon(iobs), canon(mobs)
     elif case['family'].startswith(('ha_', 'lr_', 'qd_')) or case['family'] == 'stv_dist_gregory_droop':
